@@ -799,7 +799,7 @@ class UnicodeDammit:
         # Short-circuit if the data is in Unicode to begin with.
         if isinstance(markup, str) or markup == b"":
             self.markup = markup
-            self.unicode_markup = str(markup)
+            self.unicode_markup = markup if isinstance(markup, str) else ""
             self.original_encoding = None
             return
 
